@@ -100,31 +100,43 @@ pub fn main(a: &Args) {
                 inputs.push((adv.clone(), fr.to_string()));
             }
         }
+        // editing families: the members of one family are linted one after the other by the
+        // same long-lived linters, so clauses recur at different offsets and indentation
+        let nf = a.num("family-sentences", 150) as usize;
+        let fstart = rng.below(corpus.len());
+        let mut jobs: Vec<Vec<(String, String)>> = inputs.into_iter().map(|x| vec![x]).collect();
+        for i in 0..nf.min(corpus.len()) {
+            let t = &corpus[(fstart + i) % corpus.len()];
+            let fr = if i % 3 == 0 { "markdown" } else { "plain" };
+            jobs.push(inputs::family(t).into_iter().map(|p| (p, fr.to_string())).collect());
+        }
+        let inputs = jobs;
         let max_apply = a.num("max-apply-len", 300) as usize;
         let results = par_map(inputs.len(), a.num("threads", 12) as usize,
             |_| (front::all_rules_group(Dialect::American), front::curated_group(Dialect::British)),
             |st, i| {
-                let (text, fr) = &inputs[i];
                 let mut evs: Vec<Value> = Vec::new();
-                let Some(parser) = front::base_parser(fr) else { return evs };
-                let chars: Vec<char> = text.chars().collect();
-                for (cfg, lg) in [("all", &mut st.0), ("curated", &mut st.1)] {
-                    let r = catch(|| {
-                        let doc = front::doc_with(text, &parser);
-                        lg.lint(&doc)
-                    });
-                    let Ok(lints) = r else { continue }; // panics are C01's business
-                    let lj: Vec<Value> = lints.iter().map(|l| json!({"s": l.span.start, "e": l.span.end})).collect();
-                    evs.push(json!({"ev": "Doc", "front": fr, "cfg": cfg, "len": chars.len(),
-                        "lints": lj, "text": if chars.len() <= 120 { json!(text) } else { json!("") },
-                        "ids": lints.iter().map(lint_id).collect::<Vec<_>>()}));
-                    if chars.len() <= max_apply && cfg == "all" {
-                        for l in &lints {
-                            if l.span.start <= l.span.end && l.span.end <= chars.len() {
-                                for s in &l.suggestions {
-                                    let mut e = applied_event(s, l.span, &chars, "rule");
-                                    e["id"] = json!(lint_id(l));
-                                    evs.push(e);
+                for (text, fr) in &inputs[i] {
+                    let Some(parser) = front::base_parser(fr) else { continue };
+                    let chars: Vec<char> = text.chars().collect();
+                    for (cfg, lg) in [("all", &mut st.0), ("curated", &mut st.1)] {
+                        let r = catch(|| {
+                            let doc = front::doc_with(text, &parser);
+                            lg.lint(&doc)
+                        });
+                        let Ok(lints) = r else { continue }; // panics are C01's business
+                        let lj: Vec<Value> = lints.iter().map(|l| json!({"s": l.span.start, "e": l.span.end})).collect();
+                        evs.push(json!({"ev": "Doc", "front": fr, "cfg": cfg, "len": chars.len(),
+                            "lints": lj, "text": if chars.len() <= 120 { json!(text) } else { json!("") },
+                            "ids": lints.iter().map(lint_id).collect::<Vec<_>>()}));
+                        if chars.len() <= max_apply && cfg == "all" {
+                            for l in &lints {
+                                if l.span.start <= l.span.end && l.span.end <= chars.len() {
+                                    for s in &l.suggestions {
+                                        let mut e = applied_event(s, l.span, &chars, "rule");
+                                        e["id"] = json!(lint_id(l));
+                                        evs.push(e);
+                                    }
                                 }
                             }
                         }
